@@ -91,8 +91,15 @@ def countLe (xs : List (Option α)) (q : α) : Nat :=
     | some x => decide (x ≤ q)
     | none => false
 
-/-- column index used by `sigmaCounter(fromStates=True)`: `np.argmax(self._t >= q)` -/
-def timeIdx (t : List α) (q : α) : Nat := argmaxBool (fun x => decide (q ≤ x)) t
+/-- column index used by `sigmaCounter(fromStates=True)`: `np.argmax(self._t >= q)` if some stored time
+reaches `q`, else the LAST stored column `len(self._t) - 1` -/
+def timeIdx (t : List α) (q : α) : Nat :=
+  if t.any (fun x => decide (q ≤ x)) then argmaxBool (fun x => decide (q ≤ x)) t
+  else t.length - 1
+
+/-- the column index of the code BEFORE the repair 9deb6c8: `np.argmax(self._t >= q)` alone, which is
+`0` (the INITIAL column) when no stored time reaches `q` -/
+def timeIdxOld (t : List α) (q : α) : Nat := argmaxBool (fun x => decide (q ≤ x)) t
 
 /-- `np.sum(X_sigma[:, I] > thr)` -/
 def countAbove (thr : α) (Xs : List (List α)) (I : Nat) : Nat :=
